@@ -27,6 +27,7 @@ structure MModule where
   globalTypes : List VT := []
   /-- imported (host) functions: any function of the arguments and of the instance's globals / memory -/
   host : Nat → List Val → GS → Out (Option Val × GS)
+  datas : List (List UInt8) := []   -- data segments (memory.init reads them)
 
 def MModule.ctx (m : MModule) : Ctx :=
   { types := m.types, funcTypeIdx := m.imports ++ m.funcs.map (·.type), globalTypes := m.globalTypes }
